@@ -1043,6 +1043,15 @@ evaluations = ops + queries executed on the real map; non-trivial = every histor
 	for (f, r) in fixed.iter().zip(replies.iter()) {check_run(cx, f, r);}
 	cx.report.sample(format!("run {} -> {}", fixed[0], replies[0]));
 
+	// histories with many segments / with large segments (dictionary oracle only); early, so that their failures are among the ones the report keeps
+	{
+		let k = if cx.thorough() {2000} else {200};
+		for _ in 0..k {let mut r = cx.rng.fork(); let h = gen_many_segments(&mut r); check_quiet(cx, &h);}
+		for _ in 0..k {let mut r = cx.rng.fork(); let h = gen_large_segments(&mut r); check_quiet(cx, &h);}
+		cx.report.hit_n("histories with 20-60 segments", k);
+		cx.report.hit_n("histories with segments of 1-5 KiB cut from the front / back / middle", k);
+	}
+
 	// data longer than the whole address space: must be rejected, map unchanged (the zeroed buffer is never touched by a
 	// correct `put`, so this costs nothing; lengths of 2^32 and more are only reachable on a 64-bit target)
 	// get / get_mut with Below / Above, inside segments and in gaps, at both ends of the address space
@@ -1071,15 +1080,6 @@ evaluations = ops + queries executed on the real map; non-trivial = every histor
 	exhaustive(cx, depth, qd);
 	cx.report.exhaustive = true;
 	cx.report.notes.push(format!("exhaustive: all histories of length <= {depth} (queries after every op of depth <= {qd}) in the windows at 0x00000000 and 0xFFFFFFFA"));
-
-	// histories with many segments / with large segments (dictionary oracle only)
-	{
-		let k = if cx.thorough() {2000} else {200};
-		for _ in 0..k {let mut r = cx.rng.fork(); let h = gen_many_segments(&mut r); check_quiet(cx, &h);}
-		for _ in 0..k {let mut r = cx.rng.fork(); let h = gen_large_segments(&mut r); check_quiet(cx, &h);}
-		cx.report.hit_n("histories with 20-60 segments", k);
-		cx.report.hit_n("histories with segments of 1-5 KiB cut from the front / back / middle", k);
-	}
 
 	// random long histories
 	let nhist = if cx.thorough() {4000} else {400};
